@@ -6,6 +6,7 @@ import (
 	"fmt"
 	"unicode"
 
+	stackage "github.com/JesseCoretta/go-stackage"
 	"pgregory.net/rapid"
 )
 
@@ -486,6 +487,41 @@ func growCap(n *Node) {
 	}
 }
 
+// bumpPointees adds delta to every *int / **int / ***int element (and Condition expression) reachable in
+// the real object x, in place; returns how many pointees it changed.
+func bumpPointees(x any, delta int) int {
+	n := 0
+	var visit func(v any)
+	visit = func(v any) {
+		switch tv := v.(type) {
+		case *int:
+			if tv != nil {
+				*tv += delta
+				n++
+			}
+		case **int:
+			if tv != nil && *tv != nil {
+				**tv += delta
+				n++
+			}
+		case ***int:
+			if tv != nil && *tv != nil && **tv != nil {
+				***tv += delta
+				n++
+			}
+		case stackage.Stack:
+			for i := 0; i < tv.Len(); i++ {
+				e, _ := tv.Index(i)
+				visit(e)
+			}
+		case stackage.Condition:
+			visit(tv.Expression())
+		}
+	}
+	visit(x)
+	return n
+}
+
 // ---- run -----------------------------------------------------------------------------
 
 type equaler interface{ IsEqual(any) error }
@@ -531,6 +567,22 @@ func runC05(c C05Case) (st Stats, err error) {
 			v = violf("self-rejected", "an instance is not IsEqual to itself: %v\n  tree %s", e, c.A.Brief())
 			return
 		}
+		// the same two objects compared again after a pointee was changed IN PLACE (and once more after it
+		// was changed back): a verdict is about the values as they are now, not as they were when the pair was
+		// first compared
+		if n := bumpPointees(a2, +1); n > 0 {
+			e1, e2 := a1.IsEqual(a2), a2.IsEqual(a1)
+			bumpPointees(a2, -1)
+			if e1 == nil || e2 == nil {
+				v = violf("difference-accepted/in-place-pointee-change", "after %d pointee(s) of the second instance were changed in place the pair still compares equal: A.IsEqual(B)=%v, B.IsEqual(A)=%v\n  tree %s", n, e1, e2, c.A.Brief())
+				return
+			}
+			if e := a1.IsEqual(a2); e != nil {
+				v = violf("equal-pair-rejected/after-restoring-pointees", "after the pointees were restored the pair compares unequal: %v", e)
+				return
+			}
+			st.Class("in-place-pointee-change")
+		}
 		if c.Mut == "none" {
 			st.Class("equal-only")
 			return
@@ -572,7 +624,7 @@ func c05TreeGen(tier Tier) TreeGen {
 		Kinds: stackKinds,
 		Leaf:  genC05Leaf,
 		Conds: true, CondExprStack: true, NotAsCondExpr: true,
-		Caps: true, EmptyStacks: true, IndexOpts: true, FIFOOpt: true, Ambient: true, WideRuns: true, NoNestAfter: true, ReadOnlyNodes: true,
+		Caps: true, EmptyStacks: true, IndexOpts: true, FIFOOpt: true, DeepChains: true, Ambient: true, WideRuns: true, NoNestAfter: true, ReadOnlyNodes: true,
 		Options: true, // symbols, delimiters, fold ...: presentation settings must never mask a real difference
 	}
 	if tier.Thorough {
@@ -631,7 +683,7 @@ func init() {
 		Gen: genC05,
 		Run: runC05,
 		Floors: map[string]float64{"equal-only": 0.1, "mut:slice/elem/middle": 0.01, "mut:slice/elem/last": 0.01, "mut:map/value/last": 0.003, "mut:map/key-changed": 0.01,
-			"private-field-struct-present": 0.02, "mut:stack/swap": 0.003, "mut:cond/operator": 0.01, "mut:cond/keyword-case": 0.005, "mut:node/cond-to-stack": 0.005, "mut:leaf/type-change-same-text": 0.02, "mut:node/stack-to-cond": 0.005, "mut:stack/kind": 0.01, "mut:ptr/depth3/nested": 0.002, "mut:struct/priv/fieldB": 0.001, "comparable-struct-with-pointer-present": 0.01},
+			"private-field-struct-present": 0.02, "mut:stack/swap": 0.003, "mut:cond/operator": 0.01, "mut:cond/keyword-case": 0.005, "mut:node/cond-to-stack": 0.005, "mut:leaf/type-change-same-text": 0.02, "in-place-pointee-change": 0.02, "mut:node/stack-to-cond": 0.005, "mut:stack/kind": 0.01, "mut:ptr/depth3/nested": 0.002, "mut:struct/priv/fieldB": 0.001, "comparable-struct-with-pointer-present": 0.01},
 		Assumptions: []string{"NaN, typed-nil pointers, containers nested in containers, functions and channels are not generated (outside the statement)",
 			"unexported struct fields are never mutated (documented as ignored); slices are built with cap==len (capacity is part of the documented slice comparison)"},
 	})
